@@ -83,6 +83,8 @@ pub enum RK {
     NotifyArg { m: S, arg: u32 },
     /// awaits the join handles of `child` (slot in the same command)
     AwaitJoin { child: usize, m: S, fired: bool },
+    /// join!(jh of child, req b) / select(jh of child, req b)
+    AwaitJoinReq { child: usize, b: Src, m: S, fired: bool, select: bool },
     ChildReq { a: Src },
     Producer { a: Src, chan: usize },
     Consumer { site: S, m: S, chan: usize },
@@ -376,7 +378,7 @@ impl RCmd {
                     self.release(&t);
                     let mut wake = vec![];
                     for (j, other) in self.tasks.iter_mut().enumerate() {
-                        if let Some(RTask { kind: RK::AwaitJoin { child, fired, .. }, .. }) = other {
+                        if let Some(RTask { kind: RK::AwaitJoin { child, fired, .. } | RK::AwaitJoinReq { child, fired, .. }, .. }) = other {
                             if *child == i && !*fired {
                                 *fired = true;
                                 wake.push(j);
@@ -495,6 +497,13 @@ impl RCmd {
                     // mark it as a child request (same behaviour as Req)
                     self.ready.push(child);
                     t.kind = RK::AwaitJoin { child, m, fired: false };
+                }
+                P::JoinReq(s, u, m) | P::SelectJoinReq(s, u, m) => {
+                    let child = self.insert(task(RK::Fresh(P::Req(s))));
+                    self.ready.push(child);
+                    let mut b = Src::new(u);
+                    cx.eff(&mut b, Kind::Once, 0);
+                    t.kind = RK::AwaitJoinReq { child, b, m, fired: false, select: matches!(p, P::SelectJoinReq(..)) };
                 }
                 P::Channel(s, m) => {
                     self.chans.push(Chan { q: vec![], senders: 1, waiting: None });
@@ -690,6 +699,32 @@ impl RCmd {
                     Run::Pending
                 }
             }
+            RK::AwaitJoinReq { b, m, fired, select, .. } => {
+                if *select {
+                    // left-biased: the join handle wins ties
+                    if *fired {
+                        cx.mark(*m, 0);
+                        return Run::Finished;
+                    }
+                    if let St::V(w) = b.st {
+                        cx.got(b.site, w);
+                        return Run::Finished;
+                    }
+                    // the handle is still pending: something can wake the task
+                    Run::Pending
+                } else {
+                    if let (true, St::V(w)) = (*fired, b.st) {
+                        cx.got(b.site, w);
+                        cx.mark(*m, 0);
+                        return Run::Finished;
+                    }
+                    if *fired && !b.pending() {
+                        // no source left that could wake it
+                        return Run::Finished;
+                    }
+                    Run::Pending
+                }
+            }
             RK::Producer { a, chan } => match a.st {
                 St::U => {
                     cx.eff(a, Kind::Once, 0);
@@ -775,7 +810,7 @@ impl RK {
         match self {
             RK::Req { a, .. } | RK::Stream { a, .. } | RK::ChildReq { a } | RK::StreamChild { a }
             | RK::Burst { a, .. } | RK::SpawnAfter { a, .. } | RK::Producer { a, .. } | RK::SibAborter { a, .. } => vec![a],
-            RK::Aborter { b, .. } => vec![b],
+            RK::Aborter { b, .. } | RK::AwaitJoinReq { b, .. } => vec![b],
             RK::ReqReq { a, b } | RK::ReqStream { a, b, .. } | RK::StreamReq { a, b, .. } | RK::Join { a, b }
             | RK::Select { a, b } => vec![a, b],
             RK::StreamStream { a, bs, .. } => {
@@ -791,7 +826,7 @@ impl RK {
         match self {
             RK::Req { a, .. } | RK::Stream { a, .. } | RK::ChildReq { a } | RK::StreamChild { a }
             | RK::Burst { a, .. } | RK::SpawnAfter { a, .. } | RK::Producer { a, .. } | RK::SibAborter { a, .. } => vec![a],
-            RK::Aborter { b, .. } => vec![b],
+            RK::Aborter { b, .. } | RK::AwaitJoinReq { b, .. } => vec![b],
             RK::ReqReq { a, b } | RK::ReqStream { a, b, .. } | RK::StreamReq { a, b, .. } | RK::Join { a, b }
             | RK::Select { a, b } => vec![a, b],
             RK::StreamStream { a, bs, .. } => {
